@@ -45,6 +45,7 @@ ALL = {'CIF_DUP_BLOCKCODE', 'CIF_INVALID_BLOCKCODE', 'CIF_NOSUCH_BLOCK', 'CIF_DU
 
 def codes_from_header():
     txt = open(os.path.join(_build.REPO, 'src', 'cif.h')).read()
+    txt = re.sub(r'/\*.*?\*/', lambda m: '\n' * m.group(0).count('\n'), txt, flags=re.S)   # a commented-out #define defines nothing
     # the return-codes group: from CIF_OK up to (not including) the traversal directives
     start = txt.index('#define CIF_OK')
     end = txt.index('#define CIF_TRAVERSE_CONTINUE')
